@@ -63,3 +63,16 @@ Print Assumptions C01_otRound_half_up.
 Theorem C01_otRound_fixes_integers : forall z, otRound (qc_of_Z z) = z.
 Proof. exact otRound_integer. Qed.
 Print Assumptions C01_otRound_fixes_integers.
+
+From U2F Require Import Geometry.Examples.
+(* non-vacuity: a glyph set with a mirrored component, a nested scaled composite and a mixed glyph meets the hypotheses,
+   and on it both visiting orders of the pass give the nested outline (two contours for c) *)
+Example C01_hypotheses_satisfiable : wf_glyphset_P ex_gs.
+Proof. exact ex_wf. Qed.
+Print Assumptions C01_hypotheses_satisfiable.
+Example C01_pass_on_example :
+  model_pass [n_a; n_b; n_c; n_d] ex_gs n_c = spec_resolved ex_gs n_c /\
+  model_pass [n_c; n_d; n_b; n_a] ex_gs n_c = spec_resolved ex_gs n_c /\
+  (exists r, spec_resolved ex_gs n_c = Some r /\ length r = 2%nat).
+Proof. exact ex_pass. Qed.
+Print Assumptions C01_pass_on_example.
